@@ -58,6 +58,18 @@ func refDecode(kind string, v string) (string, bool) {
 	return v, false
 }
 
+// contentKept: the decoded value of a malformed (unterminated) literal is not fixed by any property, but
+// decoding only ever removes delimiters and escapes - every character other than the quote character survives,
+// in order, and none is invented.
+func contentKept(raw, decoded string) bool {
+	rs := []rune(raw)
+	if len(rs) == 0 {
+		return decoded == ""
+	}
+	q := string(rs[0])
+	return strings.ReplaceAll(raw, q, "") == strings.ReplaceAll(decoded, q, "")
+}
+
 func isNumberType(t int) bool {
 	return t == tokenizers.Integer || t == tokenizers.Float || t == tokenizers.HexDecimal
 }
@@ -152,7 +164,7 @@ func alignTokens(kind string, base []tk, opts int, out []tk) ([][]int, *evid.Fai
 		o := out[gi]
 		for _, bi := range g {
 			want, free := expectRewrite(kind, base[bi], opts)
-			if o.T == want.T && (free || o.V == want.V) {
+			if o.T == want.T && ((free && contentKept(base[bi].V, o.V)) || (!free && o.V == want.V)) {
 				mapping[gi] = append(mapping[gi], bi)
 			}
 		}
@@ -163,6 +175,9 @@ func alignTokens(kind string, base []tk, opts int, out []tk) ([][]int, *evid.Fai
 			switch {
 			case quoteToken(kind, b) && opts&optDecodeStrings != 0:
 				sig = "option:decode-wrong"
+				if _, ok := refDecode(kind, b.V); !ok {
+					sig = "option:decode-loses-content"
+				}
 			case quoteToken(kind, b):
 				sig = "option:decoded-although-off"
 			case b.T == tokenizers.Whitespace:
